@@ -170,3 +170,17 @@ Theorem C02_bridge_den_split_uniform : forall d rs t p r r1 r0 s T', 0 < s -> Ne
   NestRtBridge.rt_den (map p (NestPart.split_ranks d r1 r0 rs)) T' =
   if NestPart.consistent r1 r0 s p then NestRtBridge.rt_den (map (NestPart.collapse r r0 p) rs) (NestOcc.to_rt t) else 0.
 Proof. exact NestRtBridge.den_split_uniform. Qed.
+
+(* mergeRanks at depth d of ANY embedded trie whose fibers at depth d are mergeable (lower fibers are nodes, their
+   concatenation is strictly increasing): NestRtBridge.lift_at d merge_top concatenates the lower fibers there *)
+Theorem C02_bridge_merge_at_is_tmap_merge1 : forall d t, NestRtBridge.holds_at d NestRtBridge.mergeable t ->
+  Rt.tmap_depth d Rt.merge1 (NestOcc.to_rt t) = Some (NestOcc.to_rt (NestRtBridge.lift_at d NestRtBridge.merge_top t)).
+Proof. exact NestRtBridge.merge_at_is_tmap_merge1. Qed.
+
+(* a two-level stack on one rank (the tries of C02_partitioned_nest_two_levels_partial): splitUniform(s2, depth=d) then
+   splitUniform(s1, depth=d+1) of the runtime model compute split_at (S d) s1 (split_at d s2 t) *)
+Theorem C02_bridge_split_at_two_levels : forall d s2 s1 t, 0 < s2 -> 0 < s1 -> NestRtBridge.fits_at d t ->
+  exists T1, Rt.tmap_depth d (Rt.split_uniform s2 0 0) (NestOcc.to_rt t) = Some T1 /\
+             Rt.tmap_depth (S d) (Rt.split_uniform s1 0 0) T1 =
+             Some (NestOcc.to_rt (NestPart.split_at (S d) s1 (NestPart.split_at d s2 t))).
+Proof. exact NestRtBridge.split_at_2_is_tmap_split_uniform. Qed.
